@@ -13,6 +13,22 @@ pub open spec fn reserved(s: Seq<char>) -> bool { s.len() >= 2 && s[0] == '_' &&
 pub open spec fn opt_ref<'a, T>(o: Option<T>) -> Option<&'a T> { match o { Some(x) => Some(&x), None => None } }
 //@ fragment spec_args.rs
 
+/// HYPOTHESIS shared by the checker contracts ("the schema the document is checked against is well formed in the sense
+/// the same run checks on the AST"): names of argument definitions / input fields are unique within their owner.
+/// Only the counting shortcuts `seen_args < arguments.len()` / `seen_fields < value.fields.len()` depend on it.
+pub open spec fn fields_args_unique<S>(fs: Seq<crate::graphql_type_system::definitions::Field<S, Pos>>) -> bool {
+    forall|k: int| 0 <= k < fs.len() ==> nodup(argdef_names((#[trigger] fs[k]).arguments@))
+}
+pub open spec fn schema_wf<S>(sch: &Schema<S, Pos>) -> bool {
+    &&& forall|n: Seq<char>| schema_directives(sch).contains_key(n) ==> nodup(argdef_names((#[trigger] schema_directives(sch)[n]).inner.arguments@))
+    &&& forall|n: Seq<char>| schema_types(sch).contains_key(n) ==> match (#[trigger] schema_types(sch)[n]).inner {
+            crate::graphql_type_system::definitions::TypeDefinition::InputObject(o) => nodup(argdef_names(o.fields@)),
+            crate::graphql_type_system::definitions::TypeDefinition::Object(o) => fields_args_unique(o.fields@),
+            crate::graphql_type_system::definitions::TypeDefinition::Interface(o) => fields_args_unique(o.fields@),
+            _ => true,
+        }
+}
+
 /// spec 5.7 Directives, for the i-th directive of a list applied at location `loc`:
 ///  5.7.1 Directives Are Defined; 5.7.2 Directives Are In Valid Locations; 5.7.3 Directives Are Unique Per Location
 ///  (unless the definition is `repeatable`); 5.4 its arguments are valid for the definition.
